@@ -186,6 +186,12 @@ func genHandleProgram(r *rand.Rand, rs int) []Op {
 	if !exists {
 		flag |= os.O_CREATE
 	}
+	// a second, read-only handle is opened BEFORE the program runs and used only after the first
+	// handle has been closed: it must see the file as it is then, not as it was when it was opened
+	second := exists && r.IntN(6) == 0
+	if second {
+		ops = append(ops, Op{K: "open", P: "/f", H: 2})
+	}
 	ops = append(ops, Op{K: "openfile", P: "/f", H: 1, F: flag, M: 0o644})
 	cur := size
 	off := func() int64 {
@@ -276,7 +282,11 @@ func genHandleProgram(r *rand.Rand, rs int) []Op {
 			}
 		}
 	}
-	ops = append(ops, Op{K: "h.close", H: 1}, Op{K: "stat", P: "/f"}, Op{K: "readfile", P: "/f"})
+	ops = append(ops, Op{K: "h.close", H: 1})
+	if second {
+		ops = append(ops, Op{K: "h.read", H: 2, N: 1 << 17}, Op{K: "h.read", H: 2, N: 16}, Op{K: "h.close", H: 2})
+	}
+	ops = append(ops, Op{K: "stat", P: "/f"}, Op{K: "readfile", P: "/f"})
 	return ops
 }
 
